@@ -100,7 +100,7 @@ func (r *Recorder) op(name string, args ...frontend.Variable) frontend.Variable 
 }
 
 func (r *Recorder) Ret(vs ...frontend.Variable) { fmt.Fprintf(r.W, "ret%s\n", strs(vs)) }
-func (r *Recorder) Error(err error)            { fmt.Fprintf(r.W, "error %s\n", err.Error()) }
+func (r *Recorder) Error(err error)             { fmt.Fprintf(r.W, "error %s\n", err.Error()) }
 
 func variadic(name string, i1, i2 frontend.Variable, in []frontend.Variable) (string, []frontend.Variable) {
 	if len(in) == 0 {
@@ -121,8 +121,10 @@ func (r *Recorder) Mul(i1, i2 frontend.Variable, in ...frontend.Variable) fronte
 	n, a := variadic("mul", i1, i2, in)
 	return r.op(n, a...)
 }
-func (r *Recorder) MulAcc(a, b, c frontend.Variable) frontend.Variable { return r.op("mulacc", a, b, c) }
-func (r *Recorder) Neg(i1 frontend.Variable) frontend.Variable        { return r.op("neg", i1) }
+func (r *Recorder) MulAcc(a, b, c frontend.Variable) frontend.Variable {
+	return r.op("mulacc", a, b, c)
+}
+func (r *Recorder) Neg(i1 frontend.Variable) frontend.Variable { return r.op("neg", i1) }
 func (r *Recorder) DivUnchecked(i1, i2 frontend.Variable) frontend.Variable {
 	return r.op("divunchecked", i1, i2)
 }
@@ -152,7 +154,7 @@ func (r *Recorder) Select(b frontend.Variable, i1, i2 frontend.Variable) fronten
 func (r *Recorder) Lookup2(b0, b1 frontend.Variable, i0, i1, i2, i3 frontend.Variable) frontend.Variable {
 	return r.op("lookup2", b0, b1, i0, i1, i2, i3)
 }
-func (r *Recorder) IsZero(i1 frontend.Variable) frontend.Variable { return r.op("iszero", i1) }
+func (r *Recorder) IsZero(i1 frontend.Variable) frontend.Variable  { return r.op("iszero", i1) }
 func (r *Recorder) Cmp(i1, i2 frontend.Variable) frontend.Variable { return r.op("cmp", i1, i2) }
 func (r *Recorder) AssertIsEqual(i1, i2 frontend.Variable) {
 	fmt.Fprintf(r.W, "asserteq %s %s\n", Str(i1), Str(i2))
@@ -167,7 +169,7 @@ func (r *Recorder) AssertIsLessOrEqual(v frontend.Variable, bound frontend.Varia
 	fmt.Fprintf(r.W, "assertle %s %s\n", Str(v), Str(bound))
 }
 func (r *Recorder) Println(a ...frontend.Variable) {}
-func (r *Recorder) Compiler() frontend.Compiler   { return r }
+func (r *Recorder) Compiler() frontend.Compiler    { return r }
 func (r *Recorder) NewHint(f hint.Function, nbOutputs int, inputs ...frontend.Variable) ([]frontend.Variable, error) {
 	first := r.Next
 	out := r.Inputs(nbOutputs)
@@ -193,8 +195,8 @@ func (r *Recorder) ConstantValue(v frontend.Variable) (*big.Int, bool) {
 // frontend.Compiler
 func (r *Recorder) MarkBoolean(v frontend.Variable)    { fmt.Fprintf(r.W, "markboolean %s\n", Str(v)) }
 func (r *Recorder) IsBoolean(v frontend.Variable) bool { return false }
-func (r *Recorder) Field() *big.Int                     { return new(big.Int).Set(r.Mod) }
-func (r *Recorder) FieldBitLen() int                    { return r.Mod.BitLen() }
+func (r *Recorder) Field() *big.Int                    { return new(big.Int).Set(r.Mod) }
+func (r *Recorder) FieldBitLen() int                   { return r.Mod.BitLen() }
 func (r *Recorder) Commit(vs ...frontend.Variable) (frontend.Variable, error) {
 	return r.op("commit", vs...), nil
 }
